@@ -22,15 +22,28 @@ def VExpr.isSigned : VExpr → Bool
   | .ifNotRev t (.neg f) => t == f && t.revFree
   | _ => false
 
-/-- a translator case treats the reversal flag consistently: either it swaps the terminals
-and negates exactly its amplitude argument (`V` or `I`; a constructor without value needs
-none), or it does neither -/
+/-- a translator case treats the reversal flag consistently: only an amplitude argument (`V` or
+`I`) may look at the flag; if the case swaps the terminals under `reverse`, every amplitude
+argument is negated with them (`e if not element.is_reverse else -e`), so that the source
+contributes its element value from `start` to `end` either way; if it does not swap, nothing
+looks at the flag.  (Passive symbols swap too since 006d781: same element, reversed reference
+direction.) -/
 def TrCase.polarityOK (c : TrCase) : Bool :=
+  let isAmp := fun (a : String × VExpr) => a.1 == "V" || a.1 == "I"
   match c.nodes with
   | .pairSwapIfRev =>
-    c.args.all (fun a => a.2.revFree || (a.2.isSigned && (a.1 == "V" || a.1 == "I")))
-      && (c.args.isEmpty || (c.args.filter fun a => a.2.isSigned).length == 1)
+    c.args.all (fun a => if isAmp a then a.2.isSigned else a.2.revFree) && (c.args.filter isAmp).length ≤ 1
   | _ => c.args.all (·.2.revFree)
+
+/-- every two-terminal translator lists its terminals `(start, end)`, swapped under `reverse`
+(006d781: annotations flip their arrow for every reversed element, so must the terminals) -/
+def allTwoTerminalSwap : Bool :=
+  Gen.translators.all fun t => t.2.all fun c =>
+    match c.ctor, c.nodes with
+    | none, _ => true
+    | some _, .single => true
+    | some _, .pairSwapIfRev => true
+    | some _, .pair => false
 
 def translatorPolarityOK (t : String × List TrCase) : Bool := t.2.all TrCase.polarityOK
 
